@@ -178,9 +178,14 @@ impl BlockRangeExt for BlockRange {
         let start = *self.start();
         let end = *self.end();
 
-        let Some(adjusted_end) = start.saturating_add(limit).checked_sub(1) else {
+        if limit == 0 {
             return RangeInclusive::new(1, 0);
-        };
+        }
+
+        // `start + (limit - 1)` is the last element to keep. Saturating here is exact because
+        // the result is clamped to `end`, whereas saturating `start + limit` first and then
+        // subtracting 1 would wrongly drop `u64::MAX` from a range that ends there.
+        let adjusted_end = start.saturating_add(limit - 1);
 
         start..=u64::min(end, adjusted_end)
     }
